@@ -66,6 +66,10 @@ func (d *Decoder) ReadPointerFlag() (byte, error) {
 	if err != nil {
 		return 0, err
 	}
+	// An optional-value or two-variant discriminator is 0 or 1; nothing else is an encoding.
+	if firstByte > 1 {
+		return 0, fmt.Errorf("invalid discriminator %d", firstByte)
+	}
 	return firstByte, nil
 }
 
@@ -216,6 +220,30 @@ func (d *Decoder) SetHashSegmentMap(hashSegmentMap HashSegmentMap) {
 func (d *Decoder) checkSequenceLength(length uint64) error {
 	if length > uint64(d.buf.Len()) {
 		return fmt.Errorf("sequence length %d exceeds the remaining %d bytes", length, d.buf.Len())
+	}
+	return nil
+}
+
+// checkCanonicalDictionary rejects a dictionary that was not written in its canonical form (keys
+// in the encoder's order, no key twice): the bytes consumed since startLen bytes were left must
+// be exactly what the encoder writes for the decoded value.
+func (d *Decoder) checkCanonicalDictionary(startLen int, v interface{}) error {
+	start := d.buf.Size() - int64(startLen)
+	end := d.buf.Size() - int64(d.buf.Len())
+	raw := make([]byte, end-start)
+	if _, err := d.buf.ReadAt(raw, start); err != nil {
+		return err
+	}
+
+	e := GetEncoder()
+	defer PutEncoder(e)
+	e.SetHashSegmentMap(d.HashSegmentMap)
+	canonical, err := e.Encode(v)
+	if err != nil {
+		return err
+	}
+	if !bytes.Equal(raw, canonical) {
+		return errors.New("dictionary is not in canonical form (unordered or repeated keys)")
 	}
 	return nil
 }
